@@ -589,10 +589,10 @@ namespace glm
 	)
 	{
 		return typename mat<4, 4, T, Q>::row_type(
-			glm::dot(m[0], v),
-			glm::dot(m[1], v),
-			glm::dot(m[2], v),
-			glm::dot(m[3], v));
+			(m[0][0] * v[0] + m[0][1] * v[1]) + (m[0][2] * v[2] + m[0][3] * v[3]),
+			(m[1][0] * v[0] + m[1][1] * v[1]) + (m[1][2] * v[2] + m[1][3] * v[3]),
+			(m[2][0] * v[0] + m[2][1] * v[1]) + (m[2][2] * v[2] + m[2][3] * v[3]),
+			(m[3][0] * v[0] + m[3][1] * v[1]) + (m[3][2] * v[2] + m[3][3] * v[3]));
 	}
 
 	template<typename T, qualifier Q>
